@@ -23,6 +23,7 @@ TNORMS = ["AlgebraicProduct", "BoundedDifference", "DrasticProduct", "EinsteinPr
 SNORMS = ["AlgebraicSum", "BoundedSum", "DrasticSum", "EinsteinSum", "HamacherSum", "Maximum", "NilpotentMaximum", "NormalizedSum", "UnboundedSum"]
 
 IMPORTS = """From VF Require Import Core NpSum Defuzz.
+Import ListNotations.
 Definition NF : Num float := NumF true [].
 Definition kind_of (k : Z) : integral_kind :=
   match k with 0%Z => Bisector | 1%Z => Centroid | 2%Z => LargestOfMaximum | 3%Z => MeanOfMaximum | _ => SmallestOfMaximum end.
@@ -237,8 +238,29 @@ def exact_reference(lo, hi, r, ys):
     dmin = min(dist)
     near = [x for x, d in zip(xs, dist) if d <= dmin + F(1, 10**9)]
     strict = [x for x, d in zip(xs, dist) if d == dmin]
-    ref["Bisector"] = (min(near), max(near), sum(strict) / len(strict), len(near) == len(strict))
+    # a tie between best-halving points survives binary64 only if every normalised cumulative sum C_i / C_r is a
+    # binary64 number (then |C_i/C_r - 1/2| is computed exactly); otherwise rounding may legitimately break the tie and
+    # the implementation returns the mean of SOME of the tied points
+    acc, exact = F(0), True
+    for y in fy:
+        acc += y
+        q = acc / tot
+        exact = exact and F(float(acc)) == acc and F(float(q)) == q
+    ref["Bisector"] = (near, sum(strict) / len(strict), exact and len(near) == len(strict))
     return ref, xs
+
+
+def is_subset_mean(z, pts, tol):
+    """z is the mean of a non-empty subset of pts (pts sorted ascending, few)."""
+    pts = [float(p) for p in pts]
+    if len(pts) > 12:
+        return pts[0] - tol <= z <= pts[-1] + tol
+    n = len(pts)
+    for mask in range(1, 1 << n):
+        sel = [pts[i] for i in range(n) if mask >> i & 1]
+        if abs(sum(sel) / len(sel) - z) <= tol:
+            return True
+    return False
 
 
 def tolerance(lo, hi):
@@ -273,9 +295,11 @@ class Oracle:
                 self.fail(f"{kind}:range", f"{kind}({r}) = {z} outside [{lo},{hi}]", rp)
             want = ref[kind]
             if kind == "Bisector":
-                a, b, mean_strict, clean = want
-                if not (float(a) - tol <= z <= float(b) + tol) or (clean and abs(z - float(mean_strict)) > tol):
-                    self.fail("Bisector:formula", f"Bisector({r}) on [{lo},{hi}] = {z}, the best halving points span [{float(a)},{float(b)}] (mean of ties {float(mean_strict)})", rp)
+                near, mean_strict, robust = want
+                ok = abs(z - float(mean_strict)) <= tol if robust else is_subset_mean(z, near, tol)
+                if not ok:
+                    self.fail("Bisector:formula", f"Bisector({r}) on [{lo},{hi}] = {z}, the best halving points are {[float(p) for p in near][:6]} "
+                              f"(mean of the exact ties {float(mean_strict)}, ties {'exact in binary64' if robust else 'subject to rounding'})", rp)
             elif abs(z - float(want)) > tol:
                 self.fail(f"{kind}:formula", f"{kind}({r}) on [{lo},{hi}] = {z}, defined value {float(want)}", rp)
         if not allzero:
@@ -349,7 +373,9 @@ def run(ctx, build, verdict, ev):
                         if not vlib.same_float(single[kind][0], results[kind]):
                             oracle.fail("batch:rows", f"{kind}({r}): row {j} of a batch of {k} sets gives {results[kind]}, the set alone gives {single[kind][0]}",
                                         {"mode": "samples", "kind": kind, "r": r, "lo": lo, "hi": hi, "rows": rows, "row": j})
-                row_ok = clean and all(math.isfinite(y) and y >= 0 for y in row)
+                # the tolerance oracle needs samples whose products with x do not underflow (sub-normal samples are
+                # covered by the bit-exact correspondence only)
+                row_ok = clean and all(math.isfinite(y) and (y == 0 or y >= 1e-280) for y in row)
                 if row_ok and lo < hi and math.isfinite(hi - lo) and (hi - lo) > 1e-200 and r <= ctx.n(300, 1000):
                     oracle.check_row(lo, hi, r, row, results, {"mode": "samples", "r": r, "lo": lo, "hi": hi, "rows": [row]})
             if len(samples_out) < 3 and r in (5, 40, 300 if r >= 300 else -1):
